@@ -90,6 +90,10 @@ func (c *c13) invariants(what string) {
 	if err := vp.Validate(); err != nil {
 		c.fail("%s: stored vesting parameters do not validate: %v", what, err)
 	}
+	// (independent of the module's own validator) the stored denomination is one the bank accepts
+	if err := sdk.ValidateDenom(vp.Denom); err != nil {
+		c.fail("%s: the stored vesting denomination %q is not a valid denomination: %v", what, vp.Denom, err)
+	}
 }
 
 var c13Authorities = func() []string {
@@ -160,9 +164,17 @@ func errStr(r MsgResult) string {
 
 // mutateMinterParams applies one invalidating mutation.
 func mutateMinterParams(t *rapid.T, p mintertypes.Params) (mintertypes.Params, string) {
-	k := rapid.IntRange(0, 9).Draw(t, "mmut")
+	k := rapid.IntRange(0, 10).Draw(t, "mmut")
 	n := len(p.Minters)
 	switch k {
+	case 10:
+		if n >= 2 {
+			// the last period reuses the id of the one before it (ids must be consecutive and unique)
+			p.Minters[n-1].SequenceId = p.Minters[n-2].SequenceId
+			return p, "duplicate_id"
+		}
+		p.Minters[0].SequenceId = 0
+		return p, "id_zero"
 	case 0:
 		p.Minters = nil
 		return p, "no_minters"
@@ -450,7 +462,7 @@ func TestC13(t *testing.T) {
 					})
 			},
 			"vesting_denom": func(t *rapid.T) {
-				d := []string{"uatom", Denom, "", "x", "ibc/ABC"}[rapid.IntRange(0, 4).Draw(t, "denom")]
+				d := []string{"uatom", Denom, "", "x", "ibc/ABC", "uatom ", " uc4e", "uatom\n", "\tuc4e"}[rapid.IntRange(0, 8).Draw(t, "denom")]
 				a := auth()
 				c.apply(&vestingtypes.MsgUpdateDenomParam{Authority: a, Denom: d}, a, "MsgUpdateDenomParam "+d, false, func(b [3]string) [3]string {
 					np := vestingtypes.Params{Denom: d}
